@@ -47,44 +47,8 @@ def patches(want_muts, want_benign, only):
 
 def facts_for(item, base_key):
     kind, sid, patch, props = item
-    key = hashlib.sha256((base_key + harness._sha(patch)).encode()).hexdigest()[:24]
-    d = os.path.join(ROOT, key)
-    if os.path.exists(os.path.join(d, "DONE")):
-        return sid, d, None
-    shutil.rmtree(d, ignore_errors=True)
-    os.makedirs(d)
-    scratch = tempfile.mkdtemp(prefix="verif-regress-")
-    target = tempfile.mkdtemp(prefix="verif-regress-target-")
-    try:
-        for it in ("crates", "Cargo.toml", "Cargo.lock"):
-            src = os.path.join(harness.REPO, it)
-            dst = os.path.join(scratch, it)
-            if os.path.isdir(src):
-                shutil.copytree(src, dst, ignore=shutil.ignore_patterns("target"))
-            elif os.path.exists(src):
-                shutil.copy(src, dst)
-        r = subprocess.run(["patch", "-p1", "-s", "--no-backup-if-mismatch", "-i", patch], cwd=scratch, stdout=subprocess.PIPE,
-                           stderr=subprocess.STDOUT, text=True)
-        if r.returncode != 0:
-            shutil.rmtree(d, ignore_errors=True)
-            return sid, None, "patch does not apply: " + r.stdout[-200:]
-        env = harness.offline_env()
-        env["LD_LIBRARY_PATH"] = harness.nightly_sysroot() + "/lib"
-        env["RUSTFLAGS"] = "-Zmir-opt-level=0 -Awarnings"
-        env["RUSTC_WORKSPACE_WRAPPER"] = harness.DRIVER
-        env["FACTDRV_OUT"] = d
-        env["CARGO_TARGET_DIR"] = target
-        r = harness.sh("cargo +nightly check --workspace --offline", cwd=scratch, env=env)
-        if r.returncode != 0 or not any(f.endswith(".json") for f in os.listdir(d)):
-            shutil.rmtree(d, ignore_errors=True)
-            return sid, None, "does not build under the driver: " + r.stdout[-300:]
-        os.makedirs(os.path.join(d, "_raw"), exist_ok=True)
-        shutil.copy(os.path.join(scratch, "crates/parser/src/parser/grammar.pest"), os.path.join(d, "_raw", "grammar.pest"))
-        open(os.path.join(d, "DONE"), "w").write(json.dumps({"patch": patch}))
-        return sid, d, None
-    finally:
-        shutil.rmtree(scratch, ignore_errors=True)
-        shutil.rmtree(target, ignore_errors=True)
+    d, err = selftest.facts_for(patch, base_key)
+    return sid, d, err
 
 
 def evaluate(item, d, props_filter):
@@ -92,16 +56,7 @@ def evaluate(item, d, props_filter):
     props = [p for p in props if not props_filter or p in props_filter]
     if not props:
         return sid, kind, None
-    env = dict(os.environ)
-    env["VERIF_FACTS_DIR"] = d
-    env["VERIF_SUBRUN"] = "1"
-    r = subprocess.run([sys.executable, os.path.join(harness.VERIF, "rules", "run.py")] + props, env=env, stdout=subprocess.PIPE,
-                       stderr=subprocess.STDOUT, text=True)
-    lines = r.stdout.split("\n")
-    keys = [l.strip().split(" @ ")[0] for l in lines if l.startswith("  R") and " @ " in l]
-    und = [l.strip()[len("UNDECIDED "):].split(": ")[0] for l in lines if l.startswith("  UNDECIDED")]
-    err = [l for l in lines if l.startswith("ERROR") or "Traceback" in l or l.startswith("RULE-CRASH")]
-    return sid, kind, {"rc": r.returncode, "violations": keys, "undecided": und, "errors": err, "out": r.stdout}
+    return sid, kind, selftest.evaluate(props, d)
 
 
 def main(argv):
